@@ -9,8 +9,10 @@ import vlib
 
 LEVEL = "proof"
 PROPS = "Image/Props_C04.v"
-COQ_FILES = ["Lib/SortSearch.v", "Image/PathTree.v", "Image/PathTreeProofs.v", "Image/Fill.v", "Image/Overlay.v",
-             "Image/ImageCases.v", "Image/ViewEq.v", "Image/Witnesses.v", "Image/FillProofs.v", "Image/Props_C04.v"]
+COQ_FILES = ["Lib/SortSearch.v", "Image/PathTree.v", "Image/PathTreeProofs.v", "Image/PathMap.v", "Image/Fill.v", "Image/Overlay.v",
+             "Image/ImageCases.v", "Image/ViewEq.v", "Image/Witnesses.v", "Image/FillProofs.v", "Image/Bounded.v",
+             "Image/BoundedProofs.v", "Image/Props_C04.v"]
+PT_CORR = "pathtree.Node Insert/Get/GetChildren/Remove/Walk (Go) vs Image.PathTree trie (Coq, vm_compute); oracle: Image.PathMap finite map"
 CORR = ("image.FromV1Image + ChainLayer.FS Stat/Open+Read/ReadDir/fs.WalkDir (Go) vs Image.Fill load/stat/read/readdir/walk_fs "
         "(Coq, vm_compute)")
 KNOWN_FILE = os.path.join(vlib.VERIF, "KNOWN_FINDINGS.d", "C04.json")
@@ -20,13 +22,17 @@ META = {
                  "independent OCI overlay spec; refinement proof of the path tree to a finite map; refutation witnesses by "
                  "vm_compute; vm_compute correspondence against the real code on generated in-memory images; spec oracle on the domain D",
     "level_text": "pathtree_refines_map (Insert/Get/GetChildren/Walk/Remove incl. its pruning) is proved for all trees and paths. "
-                  "The property sentence as written is REFUTED on the current code by thirteen machine-checked witnesses "
-                  "(deep whiteout leak, directory replaced by file, opaque whiteouts, delete+re-create in one layer and across layers, "
-                  "absolute names, implicit-parent modes, directory vanishing after whiteout, requirer deleting content of earlier "
-                  "views, size-limit boundary, duplicate members, order-dependent pruning), each replayed on the real code on every "
-                  "run. The positive statement view_eq_overlay_on_D is stated in full; what is proved of it is listed under its "
-                  "_partial names in Props_C04.v. On every run the model is compared with the real code on all generated images "
-                  "(all streams, all configs) and the OCI spec is evaluated on the real code's own output for every image inside D.",
+                  "The property sentence as written is REFUTED on the current code by machine-checked witnesses (opaque whiteouts, "
+                  "delete+re-create in one layer and across layers, absolute names, implicit-parent modes, nested directory vanishing "
+                  "after whiteout, requirer deleting content of earlier views, order-dependent pruning), each replayed on the real code "
+                  "on every run; two further defects (deep whiteout leak, directory replaced by file) were repaired in /repo and their "
+                  "witnesses run first as a regression corpus. The positive statement view_eq_overlay_on_D is stated in full "
+                  "(ViewEq.view_eq_overlay_on_D_statement); proved of it: view_eq_overlay_on_D_bounded_partial (every image of two "
+                  "small-scope families, inside Coq) and the structural lemmas fill_is_per_chain_layer / fill_step_refines_map / "
+                  "in_whiteout_dir_characterised / whiteouts_hidden (all images). On every run the model is compared with the real "
+                  "code on all generated images (all streams, all configs), the OCI spec is evaluated on the real code's own output for "
+                  "every image inside D, and the real pathtree is compared with the trie model and an independent finite-map spec on "
+                  "generated operation sequences.",
     "level_note": "Trusted: Coq kernel + vm_compute; the Go harness (tar writing with archive/tar, image assembly with "
                   "go-containerregistry tarball/mutate, error classification by errors.Is); Go map iteration order is modelled by one "
                   "fixed order and an order-sensitivity test (cases that are order sensitive are compared on success/failure only); "
@@ -48,13 +54,13 @@ def _eval_shards(ctx, tag, vfile, per, nshards=14, extra=""):
     header = _cases_header(txt)
     chunks = re.findall(r"(Definition (cases_\d+) : list icase :=\n.*?\]\.\n)", txt, re.S)
     if not chunks:
-        return [], [], {"in_domain": 0, "in_strict": 0, "order_sensitive": 0}
+        return [], [], {"in_domain": 0, "in_strict": 0, "order_sensitive": 0, "sensitive_indices": []}
     groups = [chunks[k::nshards] for k in range(nshards)]
     idx_groups = [list(range(len(chunks)))[k::nshards] for k in range(nshards)]
 
     def one(g):
         if not groups[g]:
-            return [], [], [0, 0, 0]
+            return [], [], [0, 0, 0], []
         body = "".join(b for b, _ in groups[g])
         allc = " ++ ".join(n for _, n in groups[g])
         v = header + body + (
@@ -62,24 +68,27 @@ def _eval_shards(ctx, tag, vfile, per, nshards=14, extra=""):
             "Definition corr_bad := Eval vm_compute in bad_indices case_model_ok shard 0.\nPrint corr_bad.\n"
             "Definition spec_bad := Eval vm_compute in bad_indices case_spec_ok shard 0.\nPrint spec_bad.\n"
             "Definition counts := Eval vm_compute in [length (filter in_domain shard); length (filter in_strict_domain shard); "
-            "length (filter order_sensitive shard)].\nPrint counts.\n" % allc)
+            "length (filter order_sensitive shard)].\nPrint counts.\n"
+            "Definition sens_idx := Eval vm_compute in bad_indices (fun c => negb (order_sensitive c)) shard 0.\nPrint sens_idx.\n" % allc)
         rc, out = ctx.run_cases("C04_%s_shard_%d" % (tag, g), v, timeout=3000)
         cb = vlib.parse_printed_list(out, "corr_bad")
         sb = vlib.parse_printed_list(out, "spec_bad")
         cn = vlib.parse_printed_list(out, "counts")
-        if rc != 0 or cb is None or sb is None or cn is None:
+        sn = vlib.parse_printed_list(out, "sens_idx")
+        if rc != 0 or cb is None or sb is None or cn is None or sn is None:
             raise RuntimeError("cases shard %d failed: %s" % (g, out[-1500:]))
         # local index -> global index
 
         def glob(i):
             return idx_groups[g][i // per] * per + (i % per)
-        return [glob(i) for i in cb], [glob(i) for i in sb], cn
+        return [glob(i) for i in cb], [glob(i) for i in sb], cn, [glob(i) for i in sn]
 
-    corr, spec, cn = [], [], [0, 0, 0]
+    corr, spec, cn, sens = [], [], [0, 0, 0], []
     with ThreadPoolExecutor(max_workers=nshards) as ex:
-        for cb, sb, c in ex.map(one, range(nshards)):
+        for cb, sb, c, sn in ex.map(one, range(nshards)):
             corr += cb
             spec += sb
+            sens += sn
             cn = [a + b for a, b in zip(cn, c)]
     for g in range(nshards):
         for ext in (".vo", ".vok", ".vos", ".glob"):
@@ -87,7 +96,8 @@ def _eval_shards(ctx, tag, vfile, per, nshards=14, extra=""):
                 os.remove(os.path.join(vlib.BUILD, "cases", "C04_%s_shard_%d%s" % (tag, g, ext)))
             except FileNotFoundError:
                 pass
-    return sorted(corr), sorted(spec), {"in_domain": cn[0], "in_strict": cn[1], "order_sensitive": cn[2]}
+    return sorted(corr), sorted(spec), {"in_domain": cn[0], "in_strict": cn[1], "order_sensitive": cn[2],
+                                        "sensitive_indices": sorted(sens)}
 
 
 def _run_harness(ctx, binp, tag, args):
@@ -154,9 +164,6 @@ def nontrivial(c):
 
 def known_replay(ctx, binp, pa):
     """Replay every known finding on the implementation; returns list of (entry, ok)."""
-    entries = ctx.known_findings()
-    if not entries:
-        return []
     vfile, cases = _run_harness(ctx, binp, "known", ["-replay", KNOWN_FILE])
     txt = open(vfile).read()
     v = txt + ("Definition known := Eval vm_compute in map (fun c => [case_model_ok c; case_spec_ok_unrestricted c; in_domain c; "
@@ -170,9 +177,22 @@ def known_replay(ctx, binp, pa):
     all_entries = json.load(open(KNOWN_FILE))
     res = []
     for e, c, r in zip(all_entries, cases, rows):
+        model_ok, spec_unres, in_dom, in_strict, order_s, spec_claimed = r
+        if e.get("status", "known") == "fixed":
+            # regression corpus: the witness of a repaired defect must now satisfy the full spec
+            if not spec_unres:
+                ctx.violation({"kind": "spec-failure", "regression_of": e["id"], "fix_commit": e.get("fix_commit"),
+                               "case": describe(c),
+                               "explanation": "the witness of a defect that was fixed in /repo fails the OCI overlay spec again"})
+            elif not model_ok:
+                ctx.corr_ok = False
+                ctx.violation({"kind": "correspondence-broken", "correspondence": CORR, "first_mismatch": describe(c),
+                               "regression_of": e["id"],
+                               "explanation": "model and implementation disagree on the regression witness"}, nofail=True)
+            res.append((e["id"] + " (fixed, regression witness)", spec_unres and model_ok))
+            continue
         if e.get("status", "known") != "known":
             continue
-        model_ok, spec_unres, in_dom, in_strict, order_s, spec_claimed = r
         excl = e.get("oracle_exclusion", "D_weak")
         if e.get("kind") == "order":
             still = order_s and c.get("distinct_outcomes", 1) >= 2
@@ -194,6 +214,57 @@ def known_replay(ctx, binp, pa):
                           nofail=True)
         res.append((e["id"], ok))
     return res
+
+
+def pathtree_stream(ctx, binp, n):
+    """Operation sequences on the real pathtree.Node: trie model (correspondence) and finite-map spec (oracle)."""
+    d = os.path.join(vlib.BUILD, "cases")
+    vfile = os.path.join(d, "C04_pt.v")
+    side = os.path.join(d, "C04_pt.jsonl")
+    per = 50
+    rc, out = vlib.sh([binp, "-pathtree", str(n), "-per", str(per), "-seed", str(ctx.seed), "-out", vfile, "-jsonl", side], timeout=600)
+    if rc != 0:
+        raise RuntimeError("pathtree harness failed: " + out[-1500:])
+    cases = [json.loads(l) for l in open(side)]
+    txt = open(vfile).read()
+    header = txt[:txt.index("Definition cases_0")]
+    chunks = re.findall(r"(Definition (cases_\d+) : list pcase :=\n.*?\]\.\n)", txt, re.S)
+    nsh = 8
+    groups = [chunks[k::nsh] for k in range(nsh)]
+    idx = [list(range(len(chunks)))[k::nsh] for k in range(nsh)]
+
+    def one(g):
+        if not groups[g]:
+            return [], []
+        v = header + "".join(b for b, _ in groups[g]) + (
+            "Definition shard := %s.\n"
+            "Definition corr_bad := Eval vm_compute in pbad_indices pcase_model_ok shard 0.\nPrint corr_bad.\n"
+            "Definition spec_bad := Eval vm_compute in pbad_indices pcase_spec_ok shard 0.\nPrint spec_bad.\n"
+            % " ++ ".join(nm for _, nm in groups[g]))
+        rc, out = ctx.run_cases("C04_pt_shard_%d" % g, v, timeout=1200)
+        cb = vlib.parse_printed_list(out, "corr_bad")
+        sb = vlib.parse_printed_list(out, "spec_bad")
+        if rc != 0 or cb is None or sb is None:
+            raise RuntimeError("pathtree shard %d failed: %s" % (g, out[-1500:]))
+        gl = lambda i: idx[g][i // per] * per + (i % per)
+        return [gl(i) for i in cb], [gl(i) for i in sb]
+
+    corr, spec = [], []
+    with ThreadPoolExecutor(max_workers=nsh) as ex:
+        for cb, sb in ex.map(one, range(nsh)):
+            corr += cb
+            spec += sb
+    ctx.log("pathtree: %d sequences, corr_bad=%d spec_bad=%d" % (len(cases), len(corr), len(spec)))
+    for i in sorted(spec)[:3]:
+        ctx.violation({"kind": "spec-failure", "layer": "pathtree", "case": cases[i], "case_index": i,
+                       "explanation": "the real pathtree's answers differ from the finite-map specification (Image/PathMap.v) "
+                                      "on this operation sequence"})
+    if corr and not spec:
+        ctx.corr_ok = False
+        ctx.violation({"kind": "correspondence-broken", "correspondence": PT_CORR, "first_mismatch": cases[sorted(corr)[0]],
+                       "mismatches": len(corr),
+                       "explanation": "the trie model and the real pathtree disagree on this operation sequence"}, nofail=True)
+    return {"sequences": len(cases), "operations": sum(len(c["ops"]) for c in cases), "corr_bad": len(corr), "spec_bad": len(spec)}
 
 
 def run(ctx):
@@ -221,12 +292,17 @@ def run(ctx):
         ctx.coverage["trusted_base"] = vlib.std_trusted_base(pa, tb)
         return
     known = known_replay(ctx, binp, pa)
+    pt = pathtree_stream(ctx, binp, 6000 if ctx.tier == "thorough" else 700)
     n = 8000 if ctx.tier == "thorough" else 330
     per = 10
     vfile, cases = _run_harness(ctx, binp, "gen", ["-seed", str(ctx.seed), "-n", str(n), "-per", str(per)])
     ctx.log("harness ran %d cases" % len(cases))
     corr_bad, spec_bad, counts = _eval_shards(ctx, "gen", vfile, per)
-    unstable = [i for i, c in enumerate(cases) if not c.get("stable", True)]
+    unstable = [i for i, c in enumerate(cases) if c.get("distinct_outcomes", 1) >= 2]
+    sens = set(counts["sensitive_indices"])
+    # a case whose outcome changes between loads although the model says it cannot: correspondence break
+    unpredicted = [i for i in unstable if i not in sens]
+    corr_bad = sorted(set(corr_bad) | set(unpredicted))
     ctx.log("corr_bad=%d spec_bad=%d in_domain=%d strict=%d order_sensitive=%d unstable=%d" % (
         len(corr_bad), len(spec_bad), counts["in_domain"], counts["in_strict"], counts["order_sensitive"], len(unstable)))
     # evidence
@@ -267,14 +343,17 @@ def run(ctx):
                                "load_errors": sum(1 for c in cases if c.get("load_err")),
                                "unpack_runs": sum(1 for c in cases if c.get("unpack_ran"))},
         "vm_compute_cases": len(cases),
+        "pathtree_stream": pt,
         "oracle_cases_inside_D": counts["in_domain"],
         "known_findings_checked": [k for k, ok in known if ok],
         "oracle_leniencies": [
             "L1: ReadDir on a path the spec says is absent may return an empty listing instead of not-exist (the code returns an "
             "empty listing for whiteout nodes); it must not list anything",
-            "L2: views restricted by a requirer are compared on non-directory entries (pathtree.Remove prunes emptied directories)",
+            "L2: in the final view restricted by a requirer, a NESTED directory (depth >= 2) with no kept file below it may be missing "
+            "(pathtree.Remove prunes a directory that lost its last entry); top-level directories and directories above a kept file are claimed",
             "L3: links are followed for at most 3 hops by the oracle; lookups through a link in a parent position are not claimed"],
         "runs_disagreeing_with_themselves": len(unstable),
+        "of_which_not_predicted_order_sensitive": len(unpredicted),
     })
     ctx.coverage["trusted_base"] = vlib.std_trusted_base(pa, tb)
     ctx.assumptions += [
